@@ -20,7 +20,7 @@ def make_case(g, ops, fam, flags=1):
 
     def verdicts():
         sp = A.Spec(g, A.Sim(g, dict(sim.st)))
-        return [(sp.readable(i), sp.writable(i)) for i in range(n)]
+        return [(sp.readable(i), sp.writable(i), sp.evaluable(i)) for i in range(n)]
 
     opcodes = []
     try:
@@ -90,6 +90,9 @@ def predicate(c, ver):
                 what = "is_writable" if q else "is_readable"
                 if got == 2:
                     return "%s(N%d) panicked after step %d" % (what, i, si)
+                if spec[i][2] and got not in (0, 1) and not (q == 0 and g[i]["kind"] == "Command"):
+                    return ("after step %d: %s(N%d: %s) fails with code %d although every node it depends on "
+                            "evaluates and every reference is well-kinded" % (si, what, i, g[i]["kind"], got))
                 if want is None:
                     continue
                 if got in (0, 1):
@@ -413,7 +416,9 @@ RULE = ("acyclic node graphs rendered to GenApi XML (real parser + real nodes) a
         "raw values that are neither on nor off); histories of set_value on the controlling / index / backing nodes "
         "with is_readable and is_writable of EVERY node queried initially and after every step; real code (no_cache) "
         "vs model/Access.v by vm_compute; a sample again with the register cache enabled (predicate only); predicate "
-        "= independent three-valued Python evaluation of Readable / Writable from the property text; non-trivial = "
+        "= independent three-valued Python evaluation of Readable / Writable from the property text, plus: on a node "
+        "that is evaluable (every reachable node well-kinded and evaluating, as in C18_readable_exactly) an error "
+        "answer is a failure; non-trivial = "
         "some verdict changes along the history")
 
 
@@ -473,6 +478,10 @@ def main():
     ck.dist["nodes"] = sum(len(c.meta["g"]) for c in cases)
     ck.dist["verdicts_compared"] = sum(2 * len(c.meta["g"]) * (len(c.meta["ops"]) + 1) for c in cases)
     ck.dist["history_steps"] = sum(len(c.meta["ops"]) for c in cases)
+    ck.dist["evaluable_node_states"] = sum(1 for c in cases for sp in c.meta["specs"] for v in sp if v[2])
+    ck.dist["evaluable_but_undecided_by_predicate"] = sum(
+        1 for c in cases for sp in c.meta["specs"] for i, v in enumerate(sp)
+        if v[2] and (v[1] is None or (v[0] is None and c.meta["g"][i]["kind"] != "Command")))
     ck.finish()
 
 
